@@ -723,11 +723,15 @@ MET_RE = re.compile(r"min_rtt: ([^,]+), smoothed_rtt: ([^,]+), latest_rtt: ([^,]
 SPACE_OF = {"Initial": "initial", "Handshake": "handshake", "OneRtt": "app", "ZeroRtt": "app"}
 
 
+MET_PATH_RE = re.compile(r"RecoveryMetrics \{ path: Path \{[^}]*?\bid: (\d+), is_active")
+
+
 def metrics(text):
     m = MET_RE.search(text)
     if not m:
         return None
-    return {"min_rtt": dur_us(m.group(1)), "srtt": dur_us(m.group(2)), "latest": dur_us(m.group(3)), "var": dur_us(m.group(4)),
+    mp = MET_PATH_RE.search(text)
+    return {"path": int(mp.group(1)) if mp else 0, "min_rtt": dur_us(m.group(1)), "srtt": dur_us(m.group(2)), "latest": dur_us(m.group(3)), "var": dur_us(m.group(4)),
             "mad": dur_us(m.group(5)), "pto_count": int(m.group(6)), "cwnd": int(m.group(7)), "bif": int(m.group(8)),
             "limited": m.group(9) == "true"}
 
@@ -780,11 +784,74 @@ def recovery_view(tr, ep):
     return out
 
 
+_SENT_LEN_RE = re.compile(r"packet_header: (\w+)(?: \{ number: (\d+))?.*packet_len: (\d+)")
+_PATH_NEW_RE = re.compile(r"new: Path \{[^}]*?remote_addr: ([0-9a-fA-F.:\[\]]+),[^}]*?\bid: (\d+), is_active")
+
+
+def packet_paths(tr, ep):
+    """{(space, pn): path id} for the packets endpoint `ep` sent, or None when the endpoint only ever had one path.
+    An endpoint keeps one congestion controller per path (= peer address); `transport:path_created` names the peer
+    address and id of every additional path. The address a packet went to is read from the simulated wire: packets
+    are matched to datagrams in FIFO order through their lengths (packet_sent events / wire lines), exactly as
+    tools/e2e_c13.py does for destination connection ids. Packets that cannot be matched are absent from the map."""
+    created = []          # (remote addr, id)
+    for r in tr.recs:
+        if r.kind == "ev" and r.ep == ep and r.name == "transport:path_created":
+            m = _PATH_NEW_RE.search(r.text)
+            if m:
+                created.append((m.group(1), int(m.group(2))))
+    if not created:
+        return None
+    wires = tr.of("wire")
+    if not wires:
+        return {}
+    server_addr = wires[0].dst
+    first_peer = wires[0].dst if ep == "c" else wires[0].src
+    addr_path = {first_peer: 0}
+    for a, i in created:
+        addr_path[a] = i      # a path id is never reused for another address (pending ids excepted: last one wins)
+    out = {}
+    q = []
+    broken = False
+    for r in tr.recs:
+        if r.kind == "ev" and r.ep == ep and r.name == "transport:packet_sent":
+            m = _SENT_LEN_RE.search(r.text)
+            if m and m.group(1) in SPACE_OF and m.group(2) is not None:
+                q.append((SPACE_OF[m.group(1)], int(m.group(2)), int(m.group(3))))
+            else:
+                broken = True
+        elif r.kind == "wire" and not broken:
+            if r.action in ("replay", "inject", "dup") or r.action.startswith("stray") or r.action == "to-attacker":
+                continue
+            if (r.src == server_addr) != (ep == "s"):
+                continue
+            if r.action.startswith("corrupt"):
+                broken = True        # the logged length is that of the garbled datagram
+                continue
+            total, k = 0, 0
+            while k < len(q) and total < r.len:
+                total += q[k][2]
+                k += 1
+            if total != r.len or k == 0:
+                broken = True
+                continue
+            pid = addr_path.get(r.dst)
+            for sp, pn, ln in q[:k]:
+                if pid is not None:
+                    out[(sp, pn)] = pid
+            del q[:k]
+    return out
+
+
 def o_c09(tr):
-    """loss declarations are justified (RFC 9002 §6.1), every packet resolved once, bytes in flight exact"""
+    """loss declarations are justified (RFC 9002 §6.1), every packet resolved once, bytes in flight exact —
+    per PATH: every path has its own congestion controller; a recovery:metrics_updated event reports the
+    bytes_in_flight of the path it names, which must equal the unresolved congestion-controlled packets that were
+    sent ON THAT PATH, whichever path the acknowledgement arrived on"""
     bad = []
     for ep in ("c", "s"):
         view = recovery_view(tr, ep)
+        paths = packet_paths(tr, ep)      # None: single path
         sent = {}         # (space, pn) -> (t, len, cc)
         resolved = {}
         largest_acked = {}
@@ -793,14 +860,16 @@ def o_c09(tr):
         armed = False      # exact bytes-in-flight comparison starts once the handshake spaces are gone
         stuck_reported = False
         residue = 0
+        path_of = {}       # (space, pn) -> path id the packet was sent on (0 when the endpoint has a single path)
         hs_gone = False
         disc_last = 0
         disc_t, disc_bytes = -1, 0      # bytes discarded at this instant (the metrics event emitted during a
                                         # key discard is published before the counter is reduced)
 
-        def snapshots(i):
-            prev = [m for j, m in mets if j < i][-1:]
-            nxt = [m for j, m in mets if j > i][:1]
+        def snapshots(i, pid=None):
+            # (loss detection uses the RTT estimator of the path the packet was SENT on: detect_lost_packets)
+            prev = [m for j, m in mets if j < i and (pid is None or m["path"] == pid)][-1:]
+            nxt = [m for j, m in mets if j > i and (pid is None or m["path"] == pid)][:1]
             return prev + nxt
         for i, v in enumerate(view):
             kind = v[0]
@@ -809,6 +878,7 @@ def o_c09(tr):
             if kind == "sent":
                 _, t, sp, pn, ln, mode, cc, ae = v
                 sent[(sp, pn)] = (t, ln, cc)
+                path_of[(sp, pn)] = 0 if paths is None else paths.get((sp, pn))
                 if cc:
                     bif += ln
             elif kind == "acked":
@@ -839,7 +909,9 @@ def o_c09(tr):
                 if la - pn >= 3:
                     continue
                 elapsed = t - sent[k][0]
-                snaps = snapshots(i)
+                if paths is not None and path_of.get(k) is None:
+                    continue      # sent on a path that could not be identified: which RTT estimate applies is unknown
+                snaps = snapshots(i, None if paths is None else path_of[k])
                 if not snaps:
                     continue
                 thr = min(max(9 * max(m["srtt"], m["latest"]) / 8, 1000.0) for m in snaps)
@@ -868,24 +940,91 @@ def o_c09(tr):
                 if bif < 0:
                     bad.append(("e2e:c09:bif-negative", f"endpoint {ep}: computed bytes in flight negative"))
                 # exact accounting for the application space; packets of the handshake spaces that are
-                # still unresolved form a residue that may only shrink
-                app_out = sum(sent[k][1] for k in sent if k[0] == "app" and k not in resolved and sent[k][2])
+                # still unresolved form a residue that may only shrink. The event reports ONE path's controller.
+                pid = m["path"]
+                mine = [k for k in sent if k[0] == "app" and k not in resolved and sent[k][2]]
+                # (an outstanding packet that could not be attributed to a path: no verdict for this report)
+                attributed = all(path_of.get(k) is not None for k in mine)
+                app_out = sum(sent[k][1] for k in mine if path_of.get(k) == pid)
                 res = m["bif"] - app_out
-                if hs_gone and v[1] > disc_t:
+                where = f"endpoint {ep} at {v[1]}us" + (f" (path {pid})" if paths is not None else "")
+                if not attributed:
+                    pass
+                elif pid != 0:
+                    # a path created by a peer migration never carried handshake packets: exact from the first report
                     if res < 0:
-                        bad.append(("e2e:c09:bytes-in-flight:under", f"endpoint {ep} at {v[1]}us reports bytes_in_flight {m['bif']} but unresolved congestion-controlled 1-RTT packets alone sum to {app_out}"))
+                        bad.append(("e2e:c09:bytes-in-flight:under", f"{where} reports bytes_in_flight {m['bif']} but unresolved congestion-controlled 1-RTT packets sent on that path alone sum to {app_out}"))
+                    elif res > 0:
+                        bad.append(("e2e:c09:bytes-in-flight:leak", f"{where} reports bytes_in_flight {m['bif']}; unresolved 1-RTT packets sent on that path sum to {app_out}: {res} bytes belong to packets already acknowledged / lost / never sent on it"))
+                elif hs_gone and v[1] > disc_t:
+                    if res < 0:
+                        bad.append(("e2e:c09:bytes-in-flight:under", f"{where} reports bytes_in_flight {m['bif']} but unresolved congestion-controlled 1-RTT packets alone sum to {app_out}"))
                     elif armed and res > residue:
-                        bad.append(("e2e:c09:bytes-in-flight:leak", f"endpoint {ep} at {v[1]}us reports bytes_in_flight {m['bif']}; unresolved 1-RTT packets sum to {app_out}, excess grew from {residue} to {res}"))
+                        bad.append(("e2e:c09:bytes-in-flight:leak", f"{where} reports bytes_in_flight {m['bif']}; unresolved 1-RTT packets sum to {app_out}, excess grew from {residue} to {res}"))
                     armed = True
                     residue = max(res, 0)
                     # everything of the discarded handshake spaces must be gone shortly after the discard
                     if residue > 0 and v[1] > disc_t + 1_000_000 and not stuck_reported:
                         stuck_reported = True
-                        bad.append(("e2e:c09:bytes-in-flight:stuck", f"endpoint {ep} at {v[1]}us still reports {residue} bytes in flight that belong to no unresolved 1-RTT packet, {v[1] - disc_t}us after the handshake spaces were discarded"))
+                        bad.append(("e2e:c09:bytes-in-flight:stuck", f"{where} still reports {residue} bytes in flight that belong to no unresolved 1-RTT packet, {v[1] - disc_t}us after the handshake spaces were discarded"))
                 if m["srtt"] is not None and m["min_rtt"] is not None and m["latest"] is not None:
                     if m["min_rtt"] > m["latest"] + 1 or m["min_rtt"] > m["srtt"] + 1:
                         bad.append(("e2e:c09:min-rtt", f"endpoint {ep}: min_rtt {m['min_rtt']} above latest {m['latest']} / smoothed {m['srtt']}"))
+    # the bytes-in-flight counters are checked counters: crediting a controller with more than it has in flight
+    # panics the endpoint ("counter overflow", s2n-quic-core/src/counter.rs) - the figure tried to go negative
+    for msg in ([tr.end[2]] if tr.end and tr.end[1] == "panic" else []) + list(tr.panics):
+        if "counter overflow" in msg:
+            bad.append(("e2e:c09:bytes-in-flight:counter-overflow", f"an endpoint panicked at {tr.end[0] if tr.end else '?'}us: {msg[:200]} (a checked counter of the recovery / congestion "
+                                                                     "bookkeeping left its range: bytes in flight would have gone negative)"))
+            break
     return bad
+
+
+def c09_path_stats(tr, ep="s"):
+    """non-triviality of the per-path part of o_c09 on one trace:
+      paths              additional paths the endpoint created
+      inflight-at-switch largest number of unresolved ack-eliciting 1-RTT packets at the moment the active path changed
+      cross-path-acked   packets acknowledged while a path OTHER than the one they were sent on was active
+      cross-path-lost    packets declared lost while another path was active
+      reports-after-return  bytes_in_flight reports of a path that had been left and became current again"""
+    out = {"paths": 0, "inflight-at-switch": 0, "cross-path-acked": 0, "cross-path-lost": 0, "reports-after-return": 0}
+    paths = packet_paths(tr, ep)
+    if paths is None:
+        return out
+    out["paths"] = sum(1 for r in tr.recs if r.kind == "ev" and r.ep == ep and r.name == "transport:path_created")
+    switches = []      # (t, new active path id)
+    for r in tr.recs:
+        if r.kind == "ev" and r.ep == ep and r.name == "connectivity:active_path_updated":
+            ids = re.findall(r"\bid: (\d+), is_active", r.text)
+            if len(ids) == 2:
+                switches.append((r.idx, r.t, int(ids[1])))
+    # merge the recovery view with the switches by time (switch events carry the trace index of their instant)
+    view = recovery_view(tr, ep)
+    active = 0
+    left = set()
+    sw = list(switches)
+    unresolved = {}
+    for v in view:
+        while sw and sw[0][1] <= v[1]:
+            _, t, new = sw.pop(0)
+            out["inflight-at-switch"] = max(out["inflight-at-switch"], sum(1 for k, ae in unresolved.items() if ae))
+            left.add(active)
+            active = new
+        if v[0] == "sent" and v[2] == "app":
+            unresolved[(v[2], v[3])] = v[7]
+        elif v[0] == "acked" and v[2] == "app":
+            for pn in range(v[3], v[4] + 1):
+                if unresolved.pop(("app", pn), None) is not None and paths.get(("app", pn), active) != active:
+                    out["cross-path-acked"] += 1
+        elif v[0] == "lost" and v[2] == "app":
+            if unresolved.pop(("app", v[3]), None) is not None and paths.get(("app", v[3]), active) != active:
+                out["cross-path-lost"] += 1
+        elif v[0] == "metrics":
+            if v[2]["path"] in left and v[2]["path"] == active:
+                out["reports-after-return"] += 1
+        elif v[0] == "closed":
+            break
+    return out
 
 
 def o_c10(tr):
